@@ -884,7 +884,8 @@ impl TypeSpace {
 
             Some(unhandled) => {
                 info!("treating a string format '{}' as a String", unhandled);
-                Ok((TypeEntryDetails::String.into(), metadata))
+                // The format is ignored, any other string validation is not.
+                self.convert_string(type_name, original_schema, metadata, &None, validation)
             }
         }
     }
